@@ -129,7 +129,15 @@ def smartPointers : List Str :=
 
 def unsupported64 : List Str := [s%"u64", s%"i64", s%"usize", s%"isize"]
 
-/-- the `match id.as_str()` of `try_from` once the parameters have been converted -/
+/-- the primitive arms of the `match id.as_str()` -/
+def primTable : List (Str × Prim) :=
+  [(s%"OffsetDateTime", .dateTime), (s%"str", .string), (s%"String", .string), (s%"bool", .bool),
+   (s%"char", .char), (s%"u8", .u8), (s%"u16", .u16), (s%"u32", .u32), (s%"U53", .u53),
+   (s%"i8", .i8), (s%"i16", .i16), (s%"i32", .i32), (s%"I54", .i54), (s%"f32", .f32), (s%"f64", .f64)]
+
+/-- the `match id.as_str()` of `try_from` once the parameters have been converted (the arms are
+mutually exclusive, so their order is immaterial).  A container without (enough) type arguments is
+an `UnsupportedType` error since the `fix:` commit fbbf3f3 (before: `next().unwrap()` panics). -/
 def fromPath (id : Str) (params : List RustType) : Outcome RustType :=
   if id = s%"Vec" then
     match params with
@@ -142,28 +150,16 @@ def fromPath (id : Str) (params : List RustType) : Outcome RustType :=
   else if id = s%"HashMap" then
     match params with
     | k :: v :: _ => .ok (.hashMap k v)
-    | [_] => .err .unsupportedType
-    | [] => .err .unsupportedType
-  else if id = s%"OffsetDateTime" then .ok (.prim .dateTime)
-  else if id = s%"str" ∨ id = s%"String" then .ok (.prim .string)
+    | _ => .err .unsupportedType
   else if smartPointers.contains id then
     match params with
     | p :: _ => .ok p
     | [] => .err .unsupportedType
-  else if id = s%"bool" then .ok (.prim .bool)
-  else if id = s%"char" then .ok (.prim .char)
-  else if id = s%"u8" then .ok (.prim .u8)
-  else if id = s%"u16" then .ok (.prim .u16)
-  else if id = s%"u32" then .ok (.prim .u32)
-  else if id = s%"U53" then .ok (.prim .u53)
   else if unsupported64.contains id then .err .unsupportedType
-  else if id = s%"i8" then .ok (.prim .i8)
-  else if id = s%"i16" then .ok (.prim .i16)
-  else if id = s%"i32" then .ok (.prim .i32)
-  else if id = s%"I54" then .ok (.prim .i54)
-  else if id = s%"f32" then .ok (.prim .f32)
-  else if id = s%"f64" then .ok (.prim .f64)
-  else if params.isEmpty then .ok (.simple id) else .ok (.generic id params)
+  else
+    match primTable.lookup id with
+    | some p => .ok (.prim p)
+    | none => if params.isEmpty then .ok (.simple id) else .ok (.generic id params)
 
 mutual
   /-- `impl TryFrom<&syn::Type> for RustType` -/
